@@ -177,6 +177,24 @@ def rsa_cases(rng, tier, pad, key="1024:c0601", bits=1024):
     return cases
 
 
+def rsa_hunt_cases(rng, tier, key, bits):
+    """OAEP round trips whose ENCODED message has a zero byte where the integer view loses it: the driver hunts for an
+    encryption seed per class (1: first byte of the masked seed, 2: first byte of the masked data block); plus a few
+    ordinary round trips at the boundary lengths for this key size"""
+    quick = tier == "quick"
+    k = bits // 8
+    mx = k - 2 * HLEN - 2
+    cases = []
+    for j in range(2 if quick else 6):
+        for cls in (1, 2):
+            m = plaintext(rng, [4, mx, 1, 0 if mx > 0 else 1, mx - 1, 9][j % 6] if mx > 9 else 1, "r")
+            cases.append("rsa %s hunt%d:4000:%s %s 256" % (key, cls, seed(rng)[:16], hx(m)))
+    for n in sorted({1, 2, mx - 1, mx}):
+        if n > 0:
+            cases.append("rsa %s %s %s 256" % (key, seed(rng), hx(plaintext(rng, n, "r"))))
+    return cases
+
+
 def rabin_cases(rng, tier):
     quick = tier == "quick"
     cases = []
